@@ -399,6 +399,27 @@ C05multi_OK(ev) ==
   /\ \A j \in 1..Len(ev.boxes) : \E i \in R : RectIsBox(ev.doc.elems[i], crs, ev.boxes[j])
   /\ NonDrawingCells(crs) \subseteq UNION { TextCovered(ev.doc.elems[i]) : i \in OfKind(ev.doc, "text") }
 
+\* the marker definitions the bullets refer to (doc.markers, in 1/64 of the markers' own units): a bullet's line carries the
+\* class end_marked_<id>; the marker with that id is one circle centred on the marker's reference point, filled for '*',
+\* background-filled for 'o' and 'O', and what is drawn for 'O' is larger than what is drawn for 'o', which is as large as
+\* what is drawn for '*' (drawn radius = r x markerWidth / viewBox width: compared by cross-multiplication).  Holds or fails
+\* whatever the scale: marker units are not user-space lengths.
+IdCircle == <<99, 105, 114, 99, 108, 101>>
+IdOpen == <<111, 112, 101, 110, 95, 99, 105, 114, 99, 108, 101>>
+IdBigOpen == <<98, 105, 103, 95>> \o IdOpen
+MarkersWithId(doc, id) == { i \in 1..Len(doc.markers) : doc.markers[i].id = id }
+Drawn(m, other) == m.n[3] * m.size[1] * other.vb[3]      \* proportional to the drawn radius, on the common denominator
+BulletMarkersOK(doc) ==
+  /\ \A id \in {IdCircle, IdOpen, IdBigOpen} : Cardinality(MarkersWithId(doc, id)) = 1
+  /\ LET mc == doc.markers[CHOOSE i \in MarkersWithId(doc, IdCircle) : TRUE]
+         mo == doc.markers[CHOOSE i \in MarkersWithId(doc, IdOpen) : TRUE]
+         mb == doc.markers[CHOOSE i \in MarkersWithId(doc, IdBigOpen) : TRUE] IN
+     /\ \A m \in {mc, mo, mb} : /\ m.shape = "circle" /\ Len(m.n) = 3 /\ m.n[1] = m.ref[1] /\ m.n[2] = m.ref[2]
+                                /\ m.size[1] > 0 /\ m.size[1] = m.size[2] /\ m.vb[3] > 0 /\ m.vb[3] = m.vb[4]
+     /\ "filled" \in RangeOf(mc.cls) /\ "bg_filled" \in RangeOf(mo.cls) /\ "bg_filled" \in RangeOf(mb.cls)
+     /\ Drawn(mb, mo) > Drawn(mo, mb)
+     /\ Drawn(mo, mc) = Drawn(mc, mo)
+
 ---------------------------------------------------------------------------
 (* C13 — catalogue circles.  ev.circ = [idx, k, n, extra]                                   *)
 DrawingW(D) == SetMax({ Len(D[r]) : r \in 1..Len(D) })
@@ -553,6 +574,9 @@ C14bullet_OK(ev) ==
       marked(e) == \/ (HasCls(e, "end_" \o MarkerClass(b.ch)) /\ <<e.n[3], e.n[4]>> = centre)
                    \/ (HasCls(e, "start_" \o MarkerClass(b.ch)) /\ <<e.n[1], e.n[2]>> = centre) IN
   /\ ev.doc.wf = 1 /\ ev.rows = BulletRows(b)
+  \* the marker the class refers to is the documented kind (documents of the real code carry their marker definitions;
+  \* the model's documents do not)
+  /\ (("markers" \in DOMAIN ev.doc /\ ev.doc.ndefs = 1) => BulletMarkersOK(ev.doc))
   /\ \E i \in Idx(ev.doc) : IsLine(ev.doc.elems[i]) /\ marked(ev.doc.elems[i])
   /\ (\E i \in Idx(ev.doc) : IsLine(ev.doc.elems[i]) /\ HasCls(ev.doc.elems[i], "broken")) <=> DashedBody(b.body)
   /\ \A i \in Idx(ev.doc) : IsLine(ev.doc.elems[i]) \/ IsText(ev.doc.elems[i])
